@@ -40,19 +40,40 @@ def fb(ctx):
         return
     F = dict(oks[0]['expr'][2][0][1][2])
     body = F['body']
-    # G9: !is_vfunc && body.is_none() => Err
-    g9 = [g for g in gs if g.kind == 'reject' and g.kinds <= {'err_own'} and g.pred[0] == 'is_none' and strip(g.pred[1])[0] == 'var']
+    # G9: !is_vfunc && body.is_none() => Err.  Decided on the CFG itself: once every branch edge that implies "the body is
+    # Some" or "is_vfunc is true" is removed, Ok(Function) must be unreachable (whatever the spelling: two ifs, one match with a
+    # guard, let-else)
+    bvs = [x for x in walk(body) if isinstance(x, tuple) and x and x[0] == 'var' and 'FunctionBody' in f.local_ty(x[1]) and f.local_ty(x[1]).startswith('std::option::Option<')]
     ok9 = False
-    if len(g9) == 1:
-        g = g9[0]
-        bodyvar = strip(g.pred[1])
-        # dominated by !is_vfunc
-        nv = any(strip(s['cond']) == V and lab is False and f.dominates(tgt, g.block) for s in f.switches() for lab, tgt in s['edges'])
-        # and the non-vfunc path to success must pass it: remove g.block and the is_vfunc==true edge of that switch
-        vsw = [s for s in f.switches() if strip(s['cond']) == V and any(f.dominates(tgt, g.block) for lab, tgt in s['edges'] if lab is False)]
-        cov = bool(vsw) and all(unreachable_without(f, oks[0]['block'], {g.block}, [(s['block'], tgt) for s in vsw for lab, tgt in s['edges'] if lab is True]) for _ in [0])
-        same = any(strip(x) == bodyvar for x in walk(body))
-        ok9 = nv and cov and same
+    g9 = []
+    if bvs:
+        bodyvar = bvs[0]
+        removed = []
+        tested = False
+        for s_ in f.switches():
+            c_ = s_['cond']
+            neg = False
+            cc_ = strip(c_)
+            while cc_[0] == 'un' and cc_[1] == 'Not':
+                cc_, neg = strip(cc_[2]), not neg
+            for lab, tgt in s_['edges']:
+                if c_[0] == 'discr' and strip(c_[1]) == bodyvar:
+                    tested = True
+                    if lab == 'Some':
+                        removed.append((s_['block'], tgt))
+                elif (is_call(cc_, 'Option::<T>::is_none') or is_call(cc_, 'Option::<T>::is_some')) and strip(cc_[2][0]) == bodyvar:
+                    tested = True
+                    says_some = (is_call(cc_, 'is_some') == (lab is True)) != neg
+                    if says_some:
+                        removed.append((s_['block'], tgt))
+                elif cc_ == V:
+                    if (lab is True) != neg:
+                        removed.append((s_['block'], tgt))
+        ok9 = tested and unreachable_without(f, oks[0]['block'], removed_edges=removed)
+        # ... and not by panicking either: no explicit panic is reachable under the same assumption
+        pan = [c_['block'] for c_ in f.calls(lambda r: r['path'] and re.search(r'^(core|std)::panicking::|^std::rt::(panic_fmt|begin_panic)', r['path']))]
+        ok9 = ok9 and all(unreachable_without(f, pb_, removed_edges=removed) for pb_ in pan)
+        g9 = [g for g in gs if g.kind == 'reject' and g.kinds <= {'err_own'} and any(strip(x) in (bodyvar, V) for x in walk(g.pred))]
     ctx.ob(['C05', 'C12'], 'R-GUARD', 'G9|missing-address-rejected', ok9, 'a non-virtual function without a body (no address attribute) is rejected before Ok(Function): !is_vfunc && body.is_none() ⇒ Err', g9[0].where() if g9 else where)
     # body definitions
     bv = strip(unwrap_all(body))
@@ -99,56 +120,65 @@ def fb(ctx):
         pc = (find_calls(g10[0].pred, 'str>::parse') + find_calls(g10[0].pred, 'FromStr'))[0]
         ok10 = 'CallingConvention' in pc[4]
     ctx.ob(['C16'], 'R-GUARD', 'G10|unknown-convention-rejected', ok10, 'a calling_convention string that does not parse is an error', g10[0].where() if g10 else where)
-    # E7 default convention
-    cc = strip(F['calling_convention'])
-    ok7 = False
-    det = show(cc)[:160]
-    if is_call(cc, 'unwrap_or_else') and cc[2][1][0] == 'closure' and cc[2][1][1] in P.fns:
-        cf = P.fns[cc[2][1][1]]
-        ex = [x['expr'] for x in cf.exits()]
-        names = sorted(e[1].split('::')[-1] for e in ex if e[0] == 'agg')
-        sw = [s for s in cf.switches()]
-        anyc = [c_ for c_ in cf.calls(lambda r: r['gpath'] and r['gpath'].endswith('Iterator::any'))]
-        self_only = False
-        if anyc:
-            ae = cf.expr_of_call(anyc[0]['term'])
-            pc = ae[2][1]
-            pf = predicate_fn(P, pc)
+    # E7 default convention, FB declared convention: decision table of Function.calling_convention
+    rows = value_table(f, F['calling_convention'])
+
+    def cond_kind(c, lab):
+        """('declared', Some|None) for the test of the parsed attribute option; ('receiver', bool) for any(arguments, is_self)"""
+        c = strip(expand(f, c)) if not (c and c[0] == 'discr') else ('discr', strip(expand(f, c[1])))
+        if c[0] == 'discr':
+            x = strip(c[1])
+            if x[0] == 'var' and any(find_calls(d_, 'parse') for d_ in f.init_of(x[1])):
+                return ('declared', lab)
+            return ('other', show(c)[:60])
+        neg = False
+        while c[0] == 'un' and c[1] == 'Not':
+            c, neg = strip(c[2]), not neg
+        if is_call(c, 'Option::<T>::is_some') or is_call(c, 'Option::<T>::is_none'):
+            x = strip(c[2][0])
+            if x[0] == 'var' and any(find_calls(d_, 'parse') for d_ in f.init_of(x[1])):
+                some = is_call(c, 'is_some') == (lab is True)
+                return ('declared', 'Some' if (some != neg) else 'None')
+        if is_call(c, 'Iterator::any') and len(c[2]) == 2:
+            pf = predicate_fn(P, c[2][1])
+            selfp = False
             if pf is not None:
-                # matches!(a, ConstSelf | MutSelf)
-                sws = [s for s in pf.switches() if s['cond'][0] == 'discr']
-                if sws:
-                    tr = {lab for lab, tgt in sws[0]['edges'] if any(x['expr'] == ('int', 1, 'bool') and pf.dominates(tgt, x['block']) for x in pf.exits())}
-                    self_only = tr == {'ConstSelf', 'MutSelf'} or tr == {'ConstSelf|MutSelf'} or tr == {'MutSelf|ConstSelf'}
-                    if not self_only:
-                        fl = {lab for lab, tgt in sws[0]['edges'] if any(x['expr'] == ('int', 0, 'bool') and pf.dominates(tgt, x['block']) for x in pf.exits())}
-                        self_only = fl == {'Field'}
-            it = ae[2][0]
-            if it[0] == 'var' and len(cf.init_of(it[1])) == 1:
-                it = cf.init_of(it[1])[0]
-            over_args = any(strip(x)[0] == 'upvar' for x in walk(it) if isinstance(x, tuple)) and not any(
-                re.search(r'Iterator::(rev|skip|take|filter|step_by|chain)$', c_[3]) for c_ in calls_in(it))
-            # the captured collection is the function's own argument list
-            cap = cc[2][1][2]
-            over_args = over_args and len(cap) >= 1 and strip(unwrap_all(cap[0])) == strip(unwrap_all(F['arguments']))
-            # Thiscall on the true edge of any(..)
-            th = False
-            for s in sw:
-                if is_call(s['cond'], 'Iterator::any'):
-                    for lab, tgt in s['edges']:
-                        vals = [x['expr'][1].split('::')[-1] for x in cf.exits() if cf.dominates(tgt, x['block']) and x['expr'][0] == 'agg']
-                        if lab is True and vals == ['Thiscall']:
-                            th = True
-                        if lab is False and vals != ['System']:
-                            th = False
-            # the receiver test is the only thing the default depends on
-            only_any = len(sw) == 1 and is_call(sw[0]['cond'], 'Iterator::any')
-            ok7 = names == ['System', 'Thiscall'] and self_only and th and over_args and only_any and len(cc[2][1][2]) == 1
-            det = 'arms %s, predicate matches self arguments only: %s, thiscall on true: %s' % (names, self_only, th)
-    ctx.ob(['C16'], 'R-EXPR', 'E7|default-convention', ok7, 'without an attribute the convention is thiscall if any argument is a receiver, else system: %s' % det, where)
-    # the attribute value is what ends up in Function.calling_convention (unwrap_or_else on the parsed option)
-    okattr = is_call(cc, 'unwrap_or_else') and strip(cc[2][0])[0] == 'var' and any(find_calls(d, 'parse') for d in f.init_of(strip(cc[2][0])[1]))
-    ctx.ob(['C16'], 'R-SLP', 'FB|declared-convention-used', bool(okattr), 'a declared calling_convention attribute is the function\'s convention: %s' % show(cc)[:120], where)
+                if pf.id.endswith('Argument::is_self'):
+                    selfp = True
+                else:
+                    sws = [s_ for s_ in pf.switches() if s_['cond'][0] == 'discr']
+                    if sws:
+                        tr = set()
+                        for lab_, tgt in sws[0]['edges']:
+                            if any(x_['expr'] == ('int', 1, 'bool') and pf.dominates(tgt, x_['block']) for x_ in pf.exits()):
+                                tr |= set(lab_.split('|'))
+                        selfp = tr == {'ConstSelf', 'MutSelf'}
+            it = strip(expand(f, c[2][0]))
+            over = not any(re.search(r'Iterator::(rev|skip|take|filter|step_by|chain)$', c_[3]) for c_ in calls_in(it)) and \
+                any(strip(unwrap_all(x_)) in (strip(unwrap_all(F['arguments'])), strip(unwrap_all(expand(f, F['arguments'])))) for x_ in walk(it) if isinstance(x_, tuple) and x_)
+            if selfp and over:
+                return ('receiver', (lab is True) != neg)
+            return ('other', 'any() with another predicate or source')
+        return ('other', show(c)[:60])
+    tab = []
+    for cs, v in rows:
+        ks = [cond_kind(c, lab) for c, lab in cs]
+        v = strip(v)
+        if v[0] == 'agg' and v[1].split('::')[-1] in ('Thiscall', 'System', 'C', 'Cdecl', 'Stdcall', 'Fastcall', 'Vectorcall'):
+            val = v[1].split('::')[-1]
+        elif v[0] == 'payload' and v[2] == 'Some':
+            val = 'declared-value'
+        else:
+            val = 'other:' + show(v)[:40]
+        tab.append((sorted(set(ks), key=repr), val))
+    want = [([('declared', 'Some')], 'declared-value'), ([('declared', 'None'), ('receiver', True)], 'Thiscall'), ([('declared', 'None'), ('receiver', False)], 'System')]
+    norm = lambda t: sorted((sorted(k, key=repr), v) for k, v in t)
+    ok7 = norm(tab) == norm(want)
+    det = '; '.join('%s -> %s' % (k, v) for k, v in tab)
+    ctx.ob(['C16'], 'R-EXPR', 'E7|default-convention', ok7,
+           'the convention is the declared one; without an attribute it is thiscall if any argument is a receiver, else system (and depends on nothing else): %s' % det, where)
+    okattr = any(v == 'declared-value' and k == [('declared', 'Some')] for k, v in tab)
+    ctx.ob(['C16'], 'R-SLP', 'FB|declared-convention-used', bool(okattr), 'a declared calling_convention attribute is the function\'s convention: %s' % det[:160], where)
     # visibility / doc / name provenance (C17-D2)
     okv = is_call(F['visibility'], 'into') or is_call(F['visibility'], 'From') or is_call(F['visibility'], 'from')
     okv = okv and strip(unwrap_all(F['visibility'])) == ('field', GA, 'visibility') or (F['visibility'][0] == 'call' and strip(F['visibility'][2][0]) == ('field', GA, 'visibility'))
